@@ -113,7 +113,8 @@ def _sim_task(t):
         # every delivery point from the first HUP on
         qp = k.quiescent_points
         start = qp[0] if qp else 0
-        for idx in range(start, min(k.npoints, start + 400)):
+        stop = k.script_done_point if k.script_done_point is not None else k.npoints
+        for idx in range(start, min(stop, start + 400)):
             for ev in MID:
                 k2, o2 = sim_execute(params, script, inject={idx: ev})
                 out["runs"] += 1
